@@ -153,7 +153,10 @@ def span_bound(b, info_list):
     for i in info_list:
         rpl = max(1, i.residues_per_line)
         term = max(0, i.max_line_length - i.residues_per_line)
-        worst = max(worst, b + (b // rpl + 3) * term + 2 * i.max_line_length)
+        # (the allowance for a line-aligned reader is itself bounded by the buffer:
+        # with lines much longer than the buffer, reading whole lines is holding
+        # more than buffer-size residues)
+        worst = max(worst, b + (b // rpl + 3) * term + min(2 * i.max_line_length, 2 * b + 64))
     return worst
 
 
@@ -475,9 +478,11 @@ def measure_long(bprime, factor, what, root):
     L = bprime * factor
     mixed = what == "index_mixed_width"
     void = what in ("autoload_warm", "autoload_torn")
-    fa = Path(root) / f"long{L}{'m' if mixed else ''}{'v' if void else ''}.fa"
+    oneline = what == "stream_oneline_input"
+    fa = Path(root) / f"long{L}{'m' if mixed else ''}{'v' if void else ''}{'u' if oneline else ''}.fa"
     if not fa.exists():
-        _long_fasta(fa, L, width=250 if mixed else 60, narrow_first=mixed, void_record=void)
+        # (oneline: the whole record on one input line, as unwrapped FASTA files have it)
+        _long_fasta(fa, L, width=L if oneline else (250 if mixed else 60), narrow_first=mixed, void_record=void)
     idx = None
     if void:
         # build the cache (cold), make sure it counts as newer, then measure the warm load
@@ -511,7 +516,7 @@ def measure_long(bprime, factor, what, root):
             fi = index_mod.FastaIndex(fa, bprime)
             fi.index = idx
             sc = Scaffold("s")
-            if what in ("stream_fwd", "stream_unwrapped"):
+            if what in ("stream_fwd", "stream_unwrapped", "stream_oneline_input"):
                 sc.add_row(Fragment("chr1", 1, L, 1))
             elif what == "stream_rev":
                 sc.add_row(Fragment("chr1", 1, L, -1))
@@ -669,7 +674,7 @@ def large_case(run_seed, tier, which):
         sandbox.remove(root)
 
 
-LONG_WHATS = ["index", "stream_fwd", "stream_rev", "stream_gap", "index_mixed_width", "autoload_warm", "autoload_torn", "cli_fasta", "stream_unwrapped"]
+LONG_WHATS = ["index", "stream_fwd", "stream_rev", "stream_gap", "index_mixed_width", "autoload_warm", "autoload_torn", "cli_fasta", "stream_unwrapped", "stream_oneline_input"]
 
 
 def long_case(bprime, what, run_seed, tier):
